@@ -279,7 +279,174 @@ def h_error_band(cx, descs, model):
         cx.prove_eq(band[k] * band[k], q, 'band^2=g^T C g[%d]' % k)
 
 
-HARNESSES = dict(cov=h_cov, jsj_errors=h_jsj_errors, not_analysed=h_not_analysed, sort_corr=h_sort_corr, error_band=h_error_band)
+def _sym_matrix(cx, n, stem='c', unit_diag=True):
+    M = np.empty((n, n), dtype=object if cx.mode == 'sym' else float)
+    for i in range(n):
+        for j in range(i + 1):
+            if i == j and unit_diag:
+                M[i, j] = 1.0
+            else:
+                v = cx.real('%s%d%d' % (stem, i, j))
+                if cx.mode == 'conc':
+                    v = 0.25 * (v - 1.0)              # generic replay data in [0.5, 1.5] -> correlations in [-0.125, 0.125]: positive definite
+                M[i, j] = M[j, i] = v
+    return M
+
+
+def h_smooth(cx, n, E):
+    """_smooth_eigenvalues under the LAPACK contract of eigh (A V = V diag(w), V^T V = 1, w ascending): the result is V diag(w') V^T with
+    w'_k = max(w_k, mean of the n-E smallest) / mean, it is symmetric, has the trace of the input (= n for a correlation matrix) and leaves the
+    ratios of the E largest eigenvalues unchanged; inadmissible E are rejected."""
+    import pyerrors.obs as O
+    lib.sym_env(cx, *MODS)
+    corr = _sym_matrix(cx, n)
+    rec = []
+    if cx.mode == 'sym':
+        def eigh(A, *a, **k):
+            w, V = contracts.eigh(A, *a, **k)
+            rec.append((np.array(w, dtype=object), np.array(V, dtype=object)))
+            return w, V
+        vars(O)['np'].__dict__['_linalg_over'] = dict(eigh=eigh)
+    for bad in (2, n - 1, 0, n + 1):
+        try:
+            O._smooth_eigenvalues(corr.copy(), bad)
+        except ValueError:
+            cx.ok('inadmissible E=%d rejected' % bad)
+        else:
+            cx.fail('inadmissible E=%d accepted' % bad)
+    del rec[:]
+    res = np.asarray(O._smooth_eigenvalues(corr.copy(), E))
+    if not cx.expect(res.shape == (n, n), 'shape'):
+        return
+    tr = sum(res[i, i] for i in range(n))
+    for i in range(n):
+        for j in range(i):
+            cx.prove_eq(res[i, j], res[j, i], 'smoothed matrix symmetric[%d,%d]' % (i, j), use_facts=False)
+    if cx.mode == 'conc':
+        cx.prove_eq(tr, float(n), 'trace preserved')
+        w0 = np.linalg.eigvalsh(np.asarray(corr, dtype=float))
+        w1 = np.linalg.eigvalsh(np.asarray(res, dtype=float))
+        for k in range(n - E, n - 1):
+            cx.prove_eq(w1[k] * w0[n - 1], w1[n - 1] * w0[k], 'ratios of the E largest eigenvalues unchanged[%d]' % k)
+        lmin = np.mean(w0[:n - E])
+        cx.prove_eq(list(w1), list(np.sort(np.maximum(w0, lmin) / np.mean(np.maximum(w0, lmin)))), 'spectrum of the smoothed matrix')
+        return
+    if not cx.expect(len(rec) == 1, 'one eigen-decomposition', str(len(rec))):
+        return
+    w, V = rec[0]
+    lmin = sum(w[:n - E]) / (n - E)
+    wc = [core.If(w[k] < lmin, lmin, w[k]) for k in range(n)]
+    mean = sum(wc) / n
+    wp = [wc[k] / mean for k in range(n)]
+    for i in range(n):
+        for j in range(i + 1):
+            cx.prove_eq(res[i, j], sum(V[i, k] * wp[k] * V[j, k] for k in range(n)), 'result = V diag(w_smoothed) V^T [%d,%d]' % (i, j), use_facts=False)
+    cx.prove_eq(sum(wp), n, 'smoothed eigenvalues sum to n', use_facts=False)
+    # trace(V D V^T) = sum_k d_k |v_k|^2 and the contract normalises the columns
+    cx.prove_eq(tr, sum(wp[k] * sum(V[i, k] * V[i, k] for i in range(n)) for k in range(n)), 'trace = sum_k w_k |v_k|^2', use_facts=False)
+    for k in range(n):
+        cx.prove_eq(sum(V[i, k] * V[i, k] for i in range(n)), 1, 'eigenvectors normalised (contract)[%d]' % k)
+    for k in range(n - E, n):
+        cx.prove(w[k] >= lmin, 'the E largest eigenvalues are not clipped[%d]' % k)
+    for k in range(n - E, n - 1):
+        cx.prove_eq(wp[k] * w[n - 1], wp[n - 1] * w[k], 'ratios of the E largest eigenvalues unchanged[%d]' % k)
+
+
+def h_cholinv(cx, n):
+    """invert_corr_cov_cholesky under the LAPACK contracts (cholesky: L lower, L L^T = corr; solve_triangular: L X = B; cond: well-conditioned input assumed):
+    the returned X is lower triangular and X^T X is the inverse of the covariance D corr D (D = diag of the errors, B = D^-1):
+    (X^T X)(D corr D) = 1.  Ill-conditioned input may be rejected with ValueError (documented)."""
+    import pyerrors.obs as O
+    lib.sym_env(cx, *MODS)
+    corr = _sym_matrix(cx, n)
+    errs = [cx.real('d%d' % i) for i in range(n)]
+    for d in errs:
+        cx.assume(d > 0, 'errors positive')
+    B = np.zeros((n, n), dtype=object if cx.mode == 'sym' else float)
+    for i in range(n):
+        B[i, i] = 1 / errs[i]
+    rec = {}
+    if cx.mode == 'sym':
+        def cholesky(A):
+            A = np.asarray(A, dtype=object)
+            Lm = np.zeros((n, n), dtype=object)
+            for i in range(n):
+                for j in range(i + 1):
+                    Lm[i, j] = core.SV(cx.newvar('chol'))
+                cx.fact(core.tz(Lm[i, i]) > 0)
+            P = Lm.dot(Lm.T)
+            for i in range(n):
+                for j in range(i + 1):
+                    cx.fact(core.tz(P[i, j]) == core.tz(A[i, j]))
+            rec['chol'] = (A, Lm)
+            return Lm
+
+        def cond(A, *a, **k):
+            return 10.0          # well-conditioned input assumed (the rejection / warning of ill-conditioned matrices only formats the number)
+
+        def solve_triangular(Lm, Bm, lower=False, **k):
+            Lm = np.asarray(Lm, dtype=object)
+            Bm = np.asarray(Bm, dtype=object)
+            X = contracts.fresh_array('trsolve', Bm.shape)
+            R = Lm.dot(X) - Bm
+            for v in R.ravel():
+                cx.fact(core.tz(v) == 0)
+            rec['solve'] = (Lm, Bm, X, lower)
+            return X
+        vars(O)['np'].__dict__['_linalg_over'] = dict(cholesky=cholesky, cond=cond)
+        contracts.install_scipy(cx, 'pyerrors.obs', **{'linalg.solve_triangular': solve_triangular})
+    try:
+        X = np.asarray(O.invert_corr_cov_cholesky(corr, B))
+    except ValueError:
+        cx.ok('rejected as ill-conditioned (documented)')
+        return
+    if not cx.expect(X.shape == (n, n), 'shape'):
+        return
+    if cx.mode == 'conc':
+        D = np.diag(np.asarray(errs, dtype=float))
+        cov = D @ np.asarray(corr, dtype=float) @ D
+        P = X.T @ X @ cov
+        for i in range(n):
+            for j in range(n):
+                cx.prove_eq(P[i, j] + 1.0, (1.0 if i == j else 0.0) + 1.0, '(X^T X) cov = 1 [%d,%d]' % (i, j))
+                if j > i:
+                    cx.prove_eq(X[i, j] + 1.0, 1.0, 'lower triangular[%d,%d]' % (i, j))
+        return
+    if not cx.expect('chol' in rec and 'solve' in rec, 'cholesky factor and triangular solve used'):
+        return
+    A, Lm = rec['chol']
+    Ls, Bs, Xs, lower = rec['solve']
+    cx.expect(lower is True, 'solve_triangular called with lower=True')
+    for i in range(n):
+        for j in range(n):
+            cx.prove_eq(A[i, j], corr[i, j], 'matrix handed to cholesky = corr[%d,%d]' % (i, j), use_facts=False)
+            cx.prove_eq(Ls[i, j], Lm[i, j], 'triangular system uses the Cholesky factor[%d,%d]' % (i, j), use_facts=False)
+            cx.prove_eq(Bs[i, j], B[i, j], 'right-hand side = inverse errors[%d,%d]' % (i, j), use_facts=False)
+    # the contract L X = B pins X down: replace it by forward substitution (proven), then the claim is a rational identity in L and the errors
+    Xe = np.zeros((n, n), dtype=object)
+    for j in range(n):
+        for i in range(n):
+            acc = B[i, j] - sum(Lm[i, k] * Xe[k, j] for k in range(i))
+            Xe[i, j] = acc / Lm[i, i]
+    for i in range(n):
+        for j in range(n):
+            cx.eliminate(Xs[i, j], Xe[i, j], 'solution of the triangular system is the forward substitution [%d,%d]' % (i, j))
+    for i in range(n):
+        for j in range(i + 1, n):
+            cx.prove_eq(X[i, j], 0, 'lower triangular[%d,%d]' % (i, j))
+    LLt = Lm.dot(Lm.T)
+    for i in range(n):
+        for j in range(i + 1):
+            cx.prove_eq(corr[i, j], LLt[i, j], 'corr = L L^T (contract)[%d,%d]' % (i, j))
+    cov = np.array([[errs[i] * LLt[i, j] * errs[j] for j in range(n)] for i in range(n)], dtype=object)
+    M = X.T.dot(X)
+    P = M.dot(cov)
+    for i in range(n):
+        for j in range(n):
+            cx.prove_eq(P[i, j], 1 if i == j else 0, '(X^T X)(D L L^T D) = 1 [%d,%d]' % (i, j))
+
+
+HARNESSES = dict(cov=h_cov, jsj_errors=h_jsj_errors, not_analysed=h_not_analysed, sort_corr=h_sort_corr, error_band=h_error_band, smooth=h_smooth, cholinv=h_cholinv)
 
 
 def jobs(tier, seed):
@@ -322,6 +489,8 @@ def jobs(tier, seed):
                       (['b', 'c', 'a'], {'a': 2, 'b': 1, 'c': 2})):
         add('sort_corr', kl=kl, sizes=sizes)
     add('error_band', descs=[S5, S5], model='lin')
+    J.append(dict(harness='smooth', params=dict(n=5, E=3), opts=dict(staged_facts=True)))
+    J.append(dict(harness='cholinv', params=dict(n=2), opts=dict(staged_facts=True, abstract_k=10 ** 9)))     # no size-triggered abstraction: eliminated contract symbols must stay visible
     add('error_band', descs=[S5, F5], model='exp')
     if tier == 'thorough':
         add('cov', descs=[S5, S5], checks=['bound'])
@@ -341,11 +510,17 @@ def apply_canary(name):
         return mutate('pyerrors.obs', '_covariance_element', 'idl_d[r_name] = _intersection_idx([obs1.idl[r_name], obs2.idl[r_name]])', 'idl_d[r_name] = _intersection_idx([obs1.idl[r_name], obs1.idl[r_name]])')
     if name == 'sort-mapping':
         return mutate('pyerrors.obs', 'sort_corr', 'for ki, k in enumerate(kl):', 'for ki, k in enumerate(kl_sorted):')
+    if name == 'smooth-norm':
+        return mutate('pyerrors.obs', '_smooth_eigenvalues', 'vals /= np.mean(vals)', 'vals /= np.mean(vals[-E:])')
+    if name == 'smooth-clip':
+        return mutate('pyerrors.obs', '_smooth_eigenvalues', 'lambda_min = np.mean(vals[:-E])', 'lambda_min = np.mean(vals[:E])')
+    if name == 'cholinv-transposed':
+        return mutate('pyerrors.obs', 'invert_corr_cov_cholesky', 'chol_inv = scipy.linalg.solve_triangular(chol, inverrdiag, lower=True)', 'chol_inv = scipy.linalg.solve_triangular(chol, inverrdiag, lower=True).T')
     raise KeyError(name)
 
 
 def _cj(h, **p):
-    return lambda tier, seed: [dict(harness=h, params=p)]
+    return lambda tier, seed: [dict(harness=h, params=p, opts=dict(staged_facts=True, abstract_k=10 ** 9))]
 
 
 CANARIES = [
@@ -354,6 +529,9 @@ CANARIES = [
     dict(name='union-not-intersection', what='intersection of configuration lists replaced',
          jobs=_cj('cov', descs=[{'e|r1': [1, 2, 3, 4, 5, 6]}, {'e|r1': [2, 3, 4, 5, 6]}], checks=['pearson'])),
     dict(name='sort-mapping', what='sort_corr positions built from the sorted key order', jobs=_cj('sort_corr', kl=['b', 'a'], sizes={'a': 2, 'b': 1})),
+    dict(name='smooth-norm', what='smoothed eigenvalues normalised with the mean of the E largest only (trace not preserved)', jobs=_cj('smooth', n=5, E=3)),
+    dict(name='smooth-clip', what='clipping threshold taken from the wrong end of the spectrum', jobs=_cj('smooth', n=5, E=3)),
+    dict(name='cholinv-transposed', what='upper instead of lower triangular inverse factor', jobs=_cj('cholinv', n=2)),
 ]
 
 META = dict(
@@ -363,7 +541,7 @@ META = dict(
                 '|corr| <= 1 (thorough), sort_corr = key permutation, error_band^2 = g^T C g.',
     bounds='2-4 observables; chains of 5-6 configurations, identical / partly overlapping / nested / irregular lists, replica subsets, disjoint ensembles, shared '
            'covariance inputs of dimension 1-3; all permutations of <= 3 observables; sort_corr for 4 key layouts (5 thorough).',
-    outside=['positive semi-definiteness for n > 2 (quantifier alternation)', '_smooth_eigenvalues and invert_corr_cov_cholesky (LAPACK eigh / cholesky)',
+    outside=['positive semi-definiteness for n > 2 (quantifier alternation)', '_smooth_eigenvalues and invert_corr_cov_cholesky are decided under the LAPACK contracts of eigh / cholesky / solve_triangular (n = 5, E = 3 resp. n = 2; n = 3 of the Cholesky inverse is beyond nlsat: one entry of (X^T X) cov = 1 stays unknown after 180 s); LAPACK numerics themselves outside',
              'the eigh call inside covariance() (only emits a warning; stubbed)', 'floating-point rounding'],
     stubs=['numpy shim', 'np.linalg.eigh inside covariance() -> zeros (warning only)', 'analysed state constructed directly: dvalue a positive symbol '
            '(one family runs the real gamma_method(S=0))', 'autograd.elementwise_grad -> dual numbers'],
